@@ -306,14 +306,16 @@ func r174Regexes(c *an.Ctx) {
 	// only the regular expressions the format validator uses
 	used := map[types.Object]bool{}
 	if vf := c.MustFunc(rule, "pkg", "ValidateFormat"); vf != nil {
-		ast.Inspect(vf.Decl.Body, func(n ast.Node) bool {
-			if id, ok := n.(*ast.Ident); ok {
-				if o := vf.Pkg.TypesInfo.Uses[id]; o != nil && o.Parent() == vf.Pkg.Types.Scope() {
-					used[o] = true
+		for _, g := range c.WithNewHelpers(vf) {
+			ast.Inspect(g.Decl.Body, func(n ast.Node) bool {
+				if id, ok := n.(*ast.Ident); ok {
+					if o := g.Pkg.TypesInfo.Uses[id]; o != nil && o.Parent() == g.Pkg.Types.Scope() {
+						used[o] = true
+					}
 				}
-			}
-			return true
-		})
+				return true
+			})
+		}
 	}
 	n := 0
 	for _, file := range p.Syntax {
@@ -498,8 +500,26 @@ func r175PatternCache(c *an.Ctx) {
 	var others []string
 	pk := c.Pkg("pkg")
 	obj := pk.Types.Scope().Lookup("knownPatterns")
+	owners := map[types.Object]bool{}
+	for _, g := range c.WithNewHelpers(f) {
+		owners[g.Obj] = true // ValidatePattern and the helpers extracted from it
+	}
+	// a helper is part of the owner only if nothing else calls it
 	for _, g := range c.AllFuncs("pkg") {
-		if g.Obj == f.Obj {
+		if owners[g.Obj] {
+			continue
+		}
+		ast.Inspect(g.Decl.Body, func(n ast.Node) bool {
+			if call, ok := n.(*ast.CallExpr); ok {
+				if callee := an.Callee(g.Pkg.TypesInfo, call); callee != nil && owners[callee] && callee != f.Obj {
+					delete(owners, callee)
+				}
+			}
+			return true
+		})
+	}
+	for _, g := range c.AllFuncs("pkg") {
+		if g.Obj == f.Obj || owners[g.Obj] {
 			continue
 		}
 		ast.Inspect(g.Decl.Body, func(n ast.Node) bool {
